@@ -299,7 +299,7 @@ fn run_sign_rt(plan: &Plan, lib: &dyn Lib, rec: &mut Rec) {
 // ------------------------------------------------------------------------------------------
 // C02
 // ------------------------------------------------------------------------------------------
-const N_PERTURB: u64 = 25;
+const N_PERTURB: u64 = 27;
 
 struct Tuple {
     pk: Vec<u8>,
@@ -404,6 +404,23 @@ fn run_tamper(plan: &Plan, lib: &dyn Lib, rec: &mut Rec) {
             t.sig = refimpl::layout::tagged(sig[0], &sp.mul(&ga).add(&h.mul(&de)).to_bytes());
             "pk-and-sig-crafted-jointly (two components)"
         }
+        25 | 26 => {
+            // scheme label AND message changed together, bridging the one structural difference between the schemes
+            // (the augmentation scheme signs pk || msg): an Aug signature over m presented as Basic/PoP over pk || m, or a
+            // Basic/PoP signature over pk || m presented as Aug over m. Only the tag inside hash-to-curve separates them.
+            if sig[0] == 1 {
+                t.sig[0] = if mode == 25 { 0 } else { 2 };
+                t.msg = { let mut m = a.pk.clone(); m.extend_from_slice(&msg); m };
+                "aug-signature-relabelled-over-pk||msg (two components)"
+            } else {
+                let pm = { let mut m = a.pk.clone(); m.extend_from_slice(&msg); m };
+                if let Some(s2) = rec.call(lib, g, Op::Sign, &[&a.sk, &[sig[0]], &pm]).first().map(|v| v.to_vec()) {
+                    t.sig = s2;
+                    t.sig[0] = 1;
+                }
+                "signature-over-pk||msg-relabelled-aug (two components)"
+            }
+        }
         _ => { "in-flight-bitflip" }
     };
     rec.fault("byz-relay");
@@ -432,7 +449,7 @@ fn run_tamper(plan: &Plan, lib: &dyn Lib, rec: &mut Rec) {
         c.finish(rec);
         return;
     }
-    if mode == 23 || mode > 24 {
+    if mode == 23 || mode > 26 {
         // random in-flight corruption of the encodings
         let part = (salt % 2) as usize;
         c.fault(K_RESP, 0, NetAction::BitFlip { part, bit: (salt >> 1) as usize });
@@ -630,6 +647,18 @@ fn run_relabel(plan: &Plan, lib: &dyn Lib, rec: &mut Rec) {
                 c2[0] = to;
                 let out = rec.call(lib, g, Op::PokFinalize, &[&c2, &ch, &ch, &sig]);
                 rec.expect("C05", "relabelled-proof-rejected", !out.is_ok(), || format!("ProofCommitment {} g={} | commitment of one scheme finalized with a signature of another", pair, g.name()));
+            }
+            // a proof bound to NO scheme: made without any signature from the challenge alone (u = -y*H_to(msg), v = O, and
+            // u = O with v = -y*sig_from): it must verify under no label
+            if let (Some((tags, _)), Some(y), Some(sp)) = (own_tags(rec, lib, g), refimpl::scalar_from_be(&ch), Pt::from_bytes(&sig[1..])) {
+                let b = Bls::with_tags(sig_grp(g), tags.clone());
+                let h_to = b.hash_msg(&pmsg, tags.sig(Scheme::from_u8(to)));
+                let o = sp.sub(&sp);
+                for (what, u, v) in [("u=-y*H v=O", h_to.mul(&y).neg(), o.clone()), ("u=O v=-y*sig", o.clone(), sp.mul(&y).neg()), ("u=-y*H v=sig", h_to.mul(&y).neg(), sp.clone())] {
+                    let forged = refimpl::layout::PokFields { tag: to, u: u.to_bytes(), v: v.to_bytes(), ts: None }.build();
+                    let out = rec.call(lib, g, Op::PokVerify, &[&forged, &a.pk, &pmsg, &ch]);
+                    rec.expect("C05", "relabelled-proof-rejected", !out.is_ok(), || format!("ProofOfKnowledge-forged-from-challenge {} {} g={} | a proof made without a signature of that scheme verifies", what, pair, g.name()));
+                }
             }
             if let Some(p) = &pokts {
                 let mut p2 = p.clone();
